@@ -36,6 +36,7 @@ RULES = {
     "C08-H5": "the buffer is NUL-terminated after the last change of the fill level before every parse",
     "C08-H7": "the text attached to -113 is cut before every trailing terminator byte (CR and LF alike), so it does not depend on whether CR and LF arrived in the same call",
     "C08-H10": "the overrun refusal is decided from the pending unterminated data, not from the length of the chunk handed in (else the outcome depends on the partition)",
+    "C08-H12": "the unit scan over the buffer ends only when the detector finds no further terminated message: no exit of that loop is decided from the length of the chunk handed in",
     "C08-H11": "every byte of the chunk is appended: the append copies (data, len) as received, neither is modified before it",
     "C08-H8": "the overrun refusal is exact: a chunk is refused only if position + len + 1 > buffer length (data that fits is never discarded)",
     "C08-H9": "definite-length block: once the '#', the digit count and all length digits have been read the block is either complete or incomplete (rest swallowed) - never rejected, whatever the announced length",
@@ -465,6 +466,64 @@ def rule_h10(ck, prog, S):
         ck.holds("C08-H10", st, K.loc(f, pushes[0]), "the refusal does not depend on the chunk length `%s`" % lenp)
 
 
+def rule_h12(ck, prog, S):
+    """Every call rescans the buffered text from its start, one program message unit per pass.  The number of passes needed
+    is the number of units buffered so far, which has nothing to do with the size of the chunk that happened to complete
+    the message; a scan loop bounded by (something computed from) the chunk length stops early for short chunks, so whether
+    a complete message is executed depends on where the stream was cut."""
+    f = prog.fn("SCPI_Input")
+    if f is None or len(f.params) < 3:
+        return
+    lenp = f.params[2]["name"]
+    det = list(f.calls("scpiParser_detectProgramMessageUnit"))
+    if not det:
+        return      # H1 reports the lost anchor
+    loops_ = [(h, body) for h, body in C.loops(f) if any(f.where[c.id][0].id in body for c in det)]
+    st = K.site(f, "scan-ends-with-the-buffered-text", 0)
+    if not loops_:
+        ck.anchor_lost("C08-H12", "SCPI_Input: the unit detector is not called in a loop")
+        return
+    # locals computed from the chunk length
+    tainted = {lenp}
+    changed = True
+    while changed:
+        changed = False
+        for n_, t in C.stores(f):
+            tp = t.get("path")
+            if t.k == "DeclRefExpr" and tp not in tainted and n_.k == "BinaryOperator" and \
+                    any(x.k == "DeclRefExpr" and x.get("path") in tainted for x in n_.child(1).walk()):
+                tainted.add(tp)
+                changed = True
+        for n_ in f.nodes.values():
+            if n_.k == "DeclStmt":
+                for d in n_.get("decls", []):
+                    if "init" in d and d["name"] not in tainted and \
+                            any(x.k == "DeclRefExpr" and x.get("path") in tainted for x in f.nodes[d["init"]].walk()):
+                        tainted.add(d["name"])
+                        changed = True
+    bad = None
+    nexits = 0
+    for h, body in loops_:
+        for bid in body:
+            b = f.blocks[bid]
+            outs = [s_ for s_ in b.succs if s_ is not None and s_.id not in body]
+            if not outs or b.cond is None:
+                continue
+            nexits += 1
+            dep = [x for x in b.cond.walk() if x.k == "DeclRefExpr" and x.get("path") in tainted]
+            if dep and bad is None:
+                bad = (b.cond, dep[0])
+    if bad:
+        ck.violated("C08-H12", st, K.loc(f, bad[0]),
+                    "the unit scan leaves its loop under `%s`, which depends on the chunk length (`%s`): a terminator that arrives in "
+                    "a chunk shorter than the number of units buffered in front of it is not reached, the complete message stays "
+                    "unexecuted (`A?;B?\\n` byte by byte), the same bytes in one call are executed" % (bad[0].src, bad[1].src))
+    elif not nexits:
+        ck.anchor_lost("C08-H12", "SCPI_Input: the scan loop has no conditional exit")
+    else:
+        ck.holds("C08-H12", st, K.loc(f, det[0]), "%d exit condition(s) of the scan loop, none computed from `%s`" % (nexits, lenp))
+
+
 def rule_h11(ck, prog, S):
     """Every byte handed in is appended: the append copies exactly (data, len) as received.  Dropping or skipping bytes of
     the chunk before they reach the buffer (leading blanks while the buffer is empty, ...) makes the content of the
@@ -505,6 +564,7 @@ def run(ck, fb, tier):
         rule_h1(ck, prog, S, model)
         rule_h10(ck, prog, S)
         rule_h11(ck, prog, S)
+        rule_h12(ck, prog, S)
         rule_h2_h6(ck, prog, S)
         # shared rules, recorded under this property's ids
         c09_h3(ck, prog)
